@@ -98,7 +98,7 @@ pub fn cnf_lines(rng: &mut Rng, idx: u64, maxvars: usize, maxops: usize) -> Vec<
             let mut m = PartialModel::new(n);
             let mut saved: Vec<PartialModel> = Vec::new();
             for _ in 0..nsteps {
-                match g.below(6) {
+                match g.below(5) {
                     0 => {
                         h.push();
                         saved.push(m.clone());
@@ -111,7 +111,12 @@ pub fn cnf_lines(rng: &mut Rng, idx: u64, maxvars: usize, maxops: usize) -> Vec<
                     }
                     _ if n > 0 => {
                         let v = g.below(n as u64) as usize;
-                        let p = g.coin();
+                        // a decision never contradicts the current model (the documented use:
+                        // decide between push and pop); repeats are allowed
+                        let p = match m.get(VarLabel::new_usize(v)) {
+                            Some(cur) => cur,
+                            None => g.coin(),
+                        };
                         let l = Literal::new(VarLabel::new_usize(v), p);
                         h.decide(l);
                         m.set(l.label(), l.polarity());
